@@ -12,9 +12,9 @@
    - quoted-triple terms (Term::QuotedTriple) are outside the model;
    - a filter compares a variable with an integer constant or with another variable (six operators).
      The numeric value of an id (its string parsed as f64, 0.0 if it does not parse) is the parameter
-     [nv : N -> Z].  evaluate_filters implements only = and != between two variables (on ids) and lets
-     every other variable-variable comparison pass: the model does the same, the Spec compares the
-     numeric values (class known_C05_varcmp, Classes.v). *)
+     [nv : N -> Z]: Spec and model use the same convention, a term that is not a number counts as 0
+     (what the code does; the property's "numeric filters" are about terms that are numbers).  Between two
+     variables = and != are identity of terms, the order operators compare the numeric values. *)
 Require Export List NArith ZArith Bool Lia.
 Export ListNotations.
 Open Scope N_scope.
